@@ -1,13 +1,20 @@
-(* C01 driver: histories through the extracted model (ModelExt.xrun_fast / st_run / iv_xrun_fast - proved equal to
-   xrun / iv_xrun on every invariant state, Properties_ext.C01_fast_model_equal)
-   and spec (Spec.spec_run, SpecExt.xspec_run / st_spec_run / iv_xspec_run) *)
+(* C01 driver: histories through the extracted model (ModelIt.yrun_fast / ModelIt.st_yrun / ModelExt.iv_xrun_fast - the
+   fast forms proved equal to yrun / iv_xrun on every invariant state, Properties_it.C01_yfast_model_equal,
+   Properties_ext.C01_inplace_vector_fast_model_equal)
+   and spec (SpecIt.yspec_run / st_yspec_run, SpecExt.iv_xspec_run) *)
 let b t = next_int t <> 0
 
 (* static_vector flavours: every operation as an xop (the operations of Model.v are wrapped in Base) *)
-let parse_sv (t : toks) : xop list =
+let itcat_of (k : int) : itcat =
+  match k with
+  | 0 -> ItPtr | 1 | 5 -> ItRandom | 2 -> ItBidi | 3 -> ItForward | 4 -> ItInput
+  | _ -> raise Not_found
+
+let parse_sv (t : toks) : yop list =
   let k = next_int t in
   let ops = ref [] in
-  let push x = ops := x :: !ops in
+  let ypush x = ops := x :: !ops in
+  let push x = ypush (XBase x) in
   let base x = push (Base x) in
   for _ = 1 to k do
     let o = next_str t in
@@ -59,14 +66,25 @@ let parse_sv (t : toks) : xop list =
         | "cta" -> let xs = next_zlist t in push (CtorArr (tg, xs))
         | "cte" -> push (CtorArr (tg, []))
         | "cpi" -> let d = b t in let x = next_z t in push (CopyIndep (tg, d, x))
+        | "ebr" -> let x = next_z t in ypush (EmplaceBackRef (tg, x))
+        | "pba" -> let k = next_z t in ypush (PushBackAt (tg, k))
+        | "eba" -> let k = next_z t in ypush (EmplaceBackAt (tg, k))
+        | "ica" -> let p = next_z t in let k = next_z t in ypush (InsertCRAt (tg, p, k))
+        | "ina" -> let p = next_z t in let n = next_z t in let k = next_z t in ypush (InsertNAt (tg, p, n, k))
+        | "rva" -> let n = next_z t in let k = next_z t in ypush (ResizeValAt (tg, n, k))
+        | "irk" -> let c = itcat_of (next_int t) in let p = next_z t in let xs = next_zlist t in ypush (InsertRangeIt (tg, c, p, xs))
+        | "mik" -> let c = itcat_of (next_int t) in let p = next_z t in let xs = next_zlist t in ypush (MoveInsertRangeIt (tg, c, p, xs))
+        | "ask" -> let c = itcat_of (next_int t) in let xs = next_zlist t in ypush (AssignRangeIt (tg, c, xs))
+        | "ctk" -> let c = itcat_of (next_int t) in let xs = next_zlist t in ypush (CtorRangeIt (tg, c, xs))
         | _ -> raise Not_found))
   done;
   List.rev !ops
 
-let parse_st (t : toks) : st_op list =
+let parse_st (t : toks) : st_yop list =
   let k = next_int t in
   let ops = ref [] in
-  let push x = ops := x :: !ops in
+  let ypush x = ops := x :: !ops in
+  let push x = ypush (StBase x) in
   for _ = 1 to k do
     let o = next_str t in
     (match o with
@@ -79,6 +97,7 @@ let parse_st (t : toks) : st_op list =
         | "pb" -> let x = next_z t in push (StPush (tg, x))
         | "pbr" -> let x = next_z t in push (StPushRv (tg, x))
         | "eb" -> let x = next_z t in push (StEmplace (tg, x))
+        | "ebr" -> let x = next_z t in ypush (StEmplaceRef (tg, x))
         | "pop" -> push (StPop tg)
         | "bk" -> push (StTop tg)
         | "sbk" -> let x = next_z t in push (StSetTop (tg, x))
@@ -167,10 +186,10 @@ let run_case op t =
         (render (iv_xrun_fast s0 ops), render_spec (iv_xspec_run cz ([], []) ops))
       end else if has_prefix flavour "st" then begin
         let ops = parse_st t in
-        (render (st_run s0 ops), render_spec (st_spec_run cz ([], []) ops))
+        (render (st_yrun s0 ops), render_spec (st_yspec_run cz ([], []) ops))
       end else begin
         let ops = parse_sv t in
-        (render (xrun_fast pred_of s0 ops), render_spec (xspec_run pred_of cz ([], []) ops))
+        (render (yrun_fast pred_of s0 ops), render_spec (yspec_run pred_of cz ([], []) ops))
       end
   | _ -> raise Not_found
 
